@@ -486,7 +486,26 @@ func (in *icInst) key() string {
 	return in.w.R.State.Digest() + in.w.R.Chain.Digest() + in.w.R.BlockfileDigest()
 }
 
+func (m *icModel) clone() *icModel {
+	n := newICModel()
+	for k, v := range m.nextReq {
+		n.nextReq[k] = v
+	}
+	for k, v := range m.nextRcpt {
+		n.nextRcpt[k] = v
+	}
+	for k, v := range m.tx {
+		c := *v
+		n.tx[k] = &c
+	}
+	return n
+}
+
 // runIC runs the BFS with the given block alphabet.
+// forkOK: a forked instance is a *reopened* copy (fresh executor caches). Histories that
+// must distinguish "kept running" from "restarted" set it to false and replay instead.
+var forkOK = false
+
 func runIC(c *mc.Ctx, prop string, o icOracle, opt fix.Options, name string, alphabet []string, depth int) {
 	b := &mc.BFS{C: c, Name: name, MaxDepth: depth,
 		Init:    func() mc.Instance { return newICInst(opt) },
@@ -506,6 +525,12 @@ func runIC(c *mc.Ctx, prop string, o icOracle, opt fix.Options, name string, alp
 		Key:   func(x mc.Instance) string { return x.(*icInst).key() },
 		Check: func(x mc.Instance, path []string) { x.(*icInst).check(c, o, prop, path) },
 		Close: func(x mc.Instance) { x.(*icInst).w.R.Close() },
+	}
+	if forkOK {
+		b.Fork = func(x mc.Instance) mc.Instance {
+			in := x.(*icInst)
+			return &icInst{w: in.w.Fork(), m: in.m.clone(), opt: in.opt}
+		}
 	}
 	b.Run()
 }
